@@ -175,6 +175,14 @@ def run(repo, rep, tier):
     from . import c09 as _c09
     L.borrow(repo, rep, "R11.5", "C09", _c09.element_details,
              ("multipart-complete", "blank-clause-empty"), minimum=2)
+    # the names of a tuple define keep their positions (C01 owns the
+    # statement parsers); a file that stopped compiling is rejected on every
+    # use, not only the first (C16 owns the reload protocol)
+    from . import c01 as _c01
+    L.borrow(repo, rep, "R11.3", "C01", _c01._parsers, ("define-names",))
+    from . import c16 as _c16
+    L.borrow(repo, rep, "R11.5", "C16", _c16._cook_check,
+             ("mtime-compare", "no-recompile", "check-order"), minimum=2)
     L.state_rule(repo, rep)
 
 
